@@ -772,7 +772,7 @@ func (w *authWorld) authReuse(r *simkit.Rand) {
 			w.mu.Unlock()
 			return res.Status, delivered, res.Err
 		case 1:
-			req, _ := http.NewRequest("GET", fmt.Sprintf("http://%s:8002%s", entry.host, []string{"/status/cluster/nodes", "/metrics", "/health"}[i%3]), nil)
+			req, _ := http.NewRequest("GET", fmt.Sprintf("http://%s:8002%s", entry.host, []string{"/status/cluster/nodes", "/ready", "/health"}[i%3]), nil) // (not /metrics: the Go collector's figures differ from process to process, and with them the size of the answer and the schedule)
 			req.Header.Set("Authorization", "Bearer "+tok)
 			resp, err := w.hc.Do(req)
 			if err != nil {
@@ -780,7 +780,7 @@ func (w *authWorld) authReuse(r *simkit.Rand) {
 			}
 			body, _ := io.ReadAll(resp.Body)
 			resp.Body.Close()
-			return resp.StatusCode, bytes.Contains(body, []byte("piko_")) || bytes.Contains(body, []byte("proxy_addr")), nil
+			return resp.StatusCode, bytes.Contains(body, []byte("proxy_addr")), nil
 		default:
 			ep := "reuse-l"
 			before := w.nodes[entry.idx].srv.ClusterState().LocalNode().Endpoints[ep]
